@@ -12,9 +12,9 @@ import JoblibModel.IOUtil
 * `count <shape>` → `<count>`
 * `order <c_contiguous 0|1> <f_contiguous 0|1>` → `C` | `F`
 * `index <C|F> <shape> <idx>` → `w=<writeIndex> r=<readIndex>`
-* `reduce <a.ptr> <a.shape> <a.strides> <a.itemsize> <m.ptr> <m.shape> <m.strides> <m.itemsize> <m.offset> <a_c> <a_f> <m_f>`
-      → `offset=<o> order=<C|F> strides=<list|None> tbl=<n|None>`
-* `elem <…same 12 fields…> <idx>` → `rebuilt=<file offset> original=<file offset>`
+* `reduce <a.ptr> <a.shape> <a.strides> <a.itemsize> <m.ptr> <m.shape> <m.strides> <m.itemsize> <m.offset> <a_c> <a_f>`
+      → `offset=<o> order=<C|F> strides=<list|None> tbl=<n|None> maps=<bytes of the byte buffer|->`
+* `elem <…same 11 fields…> <idx>` → `rebuilt=<file offset> original=<file offset>`
 * `forward <type is ndarray/memmap 0|1> <backed 0|1> <hasobject 0|1> <max_nbytes|-> <nbytes>` → `reuse-backing` | `dump-and-memmap` | `plain-pickle`
 * `tables` → the generated constants
 Anything else → `bad-op`. -/
@@ -60,9 +60,9 @@ def showOrder : Order → String
   | .C => "C"
   | .F => "F"
 
-def parseArrs (t : List String) : Option (Arr × Arr × Nat × Bool × Bool × Bool) :=
+def parseArrs (t : List String) : Option (Arr × Arr × Nat × Bool × Bool) :=
   match t with
-  | [ap, ash, ast, ais, mp, msh, mst, mis, mo, ac, af, mf] => do
+  | [ap, ash, ast, ais, mp, msh, mst, mis, mo, ac, af] => do
     let ap ← ap.toInt?
     let ash ← natList? ash
     let ast ← intList? ast
@@ -74,9 +74,8 @@ def parseArrs (t : List String) : Option (Arr × Arr × Nat × Bool × Bool × B
     let mo ← mo.toNat?
     let ac ← bool? ac
     let af ← bool? af
-    let mf ← bool? mf
     if ash.length ≠ ast.length ∨ msh.length ≠ mst.length then none
-    else pure (⟨ap, ash, ast, ais⟩, ⟨mp, msh, mst, mis⟩, mo, ac, af, mf)
+    else pure (⟨ap, ash, ast, ais⟩, ⟨mp, msh, mst, mis⟩, mo, ac, af)
   | _ => none
 
 def handle (line : String) : String :=
@@ -140,20 +139,21 @@ def handle (line : String) : String :=
     | _, _, _ => "bad-op"
   | "reduce" :: rest =>
     match parseArrs rest with
-    | some (a, m, mo, ac, af, mf) =>
-      let r := reduceMemmapBacked a m mo ac af mf
+    | some (a, m, mo, ac, af) =>
+      let r := reduceMemmapBacked a m mo ac af
       "offset=" ++ toString r.offset ++ " order=" ++ showOrder r.order
         ++ " strides=" ++ (match r.strides with | none => "None" | some s => showInts s)
         ++ " tbl=" ++ (match r.total_buffer_len with | none => "None" | some n => toString n)
+        ++ " maps=" ++ (match r.strides with | none => "-" | some st => toString (mappedBytes r.shape st a.itemsize))
     | none => "bad-op"
   | "elem" :: rest =>
     match rest.getLast?, parseArrs rest.dropLast with
-    | some idx, some (a, m, mo, ac, af, mf) =>
+    | some idx, some (a, m, mo, ac, af) =>
       match natList? idx with
       | some idx =>
         if idx.length ≠ a.shape.length then "bad-op"
         else
-          let r := reduceMemmapBacked a m mo ac af mf
+          let r := reduceMemmapBacked a m mo ac af
           "rebuilt=" ++ toString (rebuiltElemOffset r a.itemsize idx)
             ++ " original=" ++ toString (originalElemOffset a m mo idx)
       | none => "bad-op"
